@@ -19,10 +19,14 @@ type C10Case struct {
 	Preset []HV `json:"preset,omitempty"`
 	R1     Req  `json:"r1"`
 	Alt    Req  `json:"alt"` // r2 takes Vary-listed headers from r1 and everything else from here
+	// Prelude, when set, is an earlier request on the same wrapped handler whose inner
+	// handler rewrites in place the first value of every header it can reach (as a
+	// later stage normalising Vary or CORS headers would).
+	Prelude *Req `json:"prelude,omitempty"`
 }
 
 func (c C10Case) Brief() any {
-	return map[string]any{"cfg": c.Cfg, "debug": c.Debug, "preset": c.Preset, "r1": c.R1.Brief(), "alt": c.Alt.Brief()}
+	return map[string]any{"cfg": c.Cfg, "debug": c.Debug, "preset": c.Preset, "r1": c.R1.Brief(), "alt": c.Alt.Brief(), "prelude": c.Prelude}
 }
 
 func varyNames(h map[string][]string) (names map[string]bool, star bool) {
@@ -104,7 +108,34 @@ func c10Gen(t *rapid.T) C10Case {
 	default:
 		c.Preset = []HV{{hVary, Vals("*")}}
 	}
+	if chance(t, "prelude", 30) {
+		var r Req
+		switch uniform(t, "preludekind", 4) {
+		case 0:
+			r = Req{Method: pick(t, "pm", []string{"GET", "POST", "OPTIONS"})}
+		case 1:
+			r = Actual(pick(t, "pm2", []string{"GET", "PUT", "OPTIONS"}), pick(t, "po", p.allowed))
+		default:
+			r = genReq(t, p)
+		}
+		c.Prelude = &r
+	}
 	return c
+}
+
+// rewritingHandler overwrites in place index 0 of every value list reachable from the response and request headers.
+func rewritingHandler(w http.ResponseWriter, r *http.Request) {
+	for k, vs := range w.Header() {
+		if len(vs) > 0 {
+			vs[0] = map[string]string{hVary: "X-Rewritten", hACAO: "https://rewritten.example"}[k]
+		}
+	}
+	for _, vs := range r.Header {
+		if len(vs) > 0 {
+			vs[0] = "rewritten"
+		}
+	}
+	w.WriteHeader(200)
 }
 
 func c10Check(c C10Case, rec *Recorder) *Disc {
@@ -113,7 +144,12 @@ func c10Check(c C10Case, rec *Recorder) *Disc {
 		rec.Class("rejected-config")
 		return nil
 	}
-	resp1 := Do(m.Wrap, c.R1, c.Preset)
+	srv := NewServer(m.Wrap) // one wrapped handler for the prelude and the pair
+	if c.Prelude != nil {
+		rec.Class("with-prelude")
+		DoScript(srv.Wrap, *c.Prelude, nil, rewritingHandler)
+	}
+	resp1 := Do(srv.Wrap, c.R1, c.Preset)
 	rec.Eval(1)
 	// pre-set Vary values are preserved, as a prefix
 	var pre []string
@@ -137,7 +173,7 @@ func c10Check(c C10Case, rec *Recorder) *Disc {
 		return nil
 	}
 	r2 := deriveR2(c.R1, c.Alt, vary)
-	resp2 := Do(m.Wrap, r2, c.Preset)
+	resp2 := Do(srv.Wrap, r2, c.Preset)
 	rec.Eval(1)
 	differs := false
 	for _, k := range []string{hOrigin, hACRM, hACRH, hACRPN} {
@@ -168,7 +204,7 @@ func c10Check(c C10Case, rec *Recorder) *Disc {
 
 func TestC10(t *testing.T) {
 	Prop[C10Case]{ID: "C10", Gen: c10Gen, Check: c10Check,
-		Rule: "generator: valid configuration x debug x pre-set response headers (none, one or several Vary lines, Vary: Origin, rarely Vary: *) x constant inner handler x arbitrary request r1 x independently drawn alternative request with the same method; " +
+		Rule: "generator: valid configuration x debug x pre-set response headers (none, one or several Vary lines, Vary: Origin, rarely Vary: *) x constant inner handler x (30%) an earlier request on the same wrapped handler whose inner handler rewrites in place the first value of every header slice it can reach x arbitrary request r1 x independently drawn alternative request with the same method; " +
 			"r2 = every header named in the first response's Vary copied from r1 (same presence and value list), every other header taken from the alternative. Oracle: identical status and headers for r1 and r2; pre-set Vary values are a prefix of the response's Vary; other pre-set headers unchanged. " +
 			"non-trivial = r2 differs from r1 in presence or value of at least one of Origin/ACRM/ACRH/ACRPN; pairs under Vary: * are skipped and counted; distinct by (configuration, debug, preset, r1, r2).",
 		Assumptions: []string{"'present with zero values' and 'absent' are treated as different, so r2 copies presence exactly (no wire request can produce the former)"}}.Run(t)
